@@ -65,6 +65,19 @@ pub fn read_directory(bytes: &[u8]) -> Result<DirObs, String> {
     }
 }
 
+/// sfnt_version() of the table provider of member `index` (probe only).
+pub fn member_flavor(bytes: &[u8], index: usize) -> Result<u32, String> {
+    use allsorts::tables::SfntVersion;
+    match guarded(|| -> Result<u32, String> {
+        let woff = ReadScope::new(bytes).read::<Woff2Font<'_>>().map_err(|e| format!("read:{:?}", e))?;
+        let prov = woff.table_provider(index).map_err(|e| format!("provider:{:?}", e))?;
+        Ok(prov.sfnt_version())
+    }) {
+        Outcome::Returned(r) => r,
+        Outcome::Panicked(m) => Err(format!("Panic:{}", panic_key(&m))),
+    }
+}
+
 /// All tables of font `index` as the eager table provider hands them out.
 pub fn decode_tables(bytes: &[u8], index: usize, want: &[u32]) -> Result<BTreeMap<u32, Vec<u8>>, String> {
     match guarded(|| -> Result<BTreeMap<u32, Vec<u8>>, String> {
